@@ -571,6 +571,19 @@ fn gen_fields(ch: &mut Choices<'_>, min: usize, st: &mut Stats) -> Vec<MField> {
         st.class(["name-simple", "name-dotted", "name-long", "name-non-ascii", "name-needs-escape", "name-anything"][kind]);
         out.push(MField { name, ty: gen_field_type(ch), optional: ch.draw(2) == 1 });
     }
+    // wide schemes: 60..150 further fields (indexes beyond 64 and 128), one draw for their
+    // number and two words for their optionality pattern
+    if ch.chance(1, 12) {
+        let extra = 60 + ch.draw(91);
+        let pattern = ch.u64();
+        for i in 0..extra {
+            let name = format!("wide.f{i:03}");
+            if used.insert(name.clone()) {
+                out.push(MField { name, ty: MT { prim: i % 4, layers: vec![i % 3 == 0; i % 3] }, optional: pattern >> (i % 64) & 1 == 1 });
+            }
+        }
+        st.class("scheme-fields-60+");
+    }
     out
 }
 
@@ -753,6 +766,10 @@ fn show_fields(fields: &[MField]) -> Value {
 
 fn build_scheme(fields: &[MField]) -> Result<Scheme, String> {
     let mut b = SchemeBuilder::new();
+    // builder settings that are not part of the JSON form must not show in it
+    if fields.len() % 2 == 1 {
+        b.set_nil_not_equal_behavior(fields.len() % 4 == 1);
+    }
     for f in fields {
         let ty = build_type(&f.ty);
         let r = if f.optional { b.add_optional_field(&f.name, ty) } else { b.add_field(&f.name, ty) };
@@ -908,7 +925,8 @@ fn scheme_case_with(f2_open: bool, ch: &mut Choices<'_>, st: &mut Stats) -> Case
         1 => "scheme-fields-1",
         2..=6 => "scheme-fields-2..6",
         7..=20 => "scheme-fields-7..20",
-        _ => "scheme-fields-21..40",
+        21..=40 => "scheme-fields-21..40",
+        _ => "scheme-fields-41+",
     });
     if escaped {
         st.class("doc-has-escaped-name");
